@@ -34,7 +34,7 @@ Cfg == [max_delay |-> MaxDelay, threshold |-> BrkThr, sleep |-> BrkSleep]
 VARIABLES now, closing, closeCalled, conn, mpc, task, tr, pdone, delay, lastLoss, brk, waiters, natt, nspawn, mon
 vars == <<now, closing, closeCalled, conn, mpc, task, tr, pdone, delay, lastLoss, brk, waiters, natt, nspawn, mon>>
 
-NoTask == [st |-> "none", at |-> 0, oc |-> "na"]
+NoTask == [st |-> "none", at |-> 0, oc |-> "na", id |-> -1]        \* id = number of the attempt (factory call) made by this task
 Pending == Cardinality({k \in Tasks : task[k].st \in {"start", "sleep", "factory"}}) + waiters
 Ev(e, i, ok, canc) == [e |-> e, t |-> now * 1000, i |-> i, ok |-> ok, cancelled |-> canc, tasks |-> Pending + 2]
 Feed(m, evs) == LET r == FoldLeft(LAMBDA s, e : OnEvent(Cfg, s, e), m, evs) IN [r EXCEPT !.n = 0]
@@ -49,7 +49,7 @@ NextDelay == IF delay = 0 THEN 1 ELSE MinI(delay * 2, 4096)
 
 \* ---- main: while-test and creation of the two tasks (no await in between)
 Spawn(tk, w, evs) == /\ nspawn < MaxAtt + 1 /\ nspawn' = nspawn + 1
-                     /\ task' = [tk EXCEPT ![nspawn + 1] = [st |-> "start", at |-> 0, oc |-> "na"]]
+                     /\ task' = [tk EXCEPT ![nspawn + 1] = [st |-> "start", at |-> 0, oc |-> "na", id |-> -1]]
                      /\ waiters' = w + 1 /\ mpc' = "wait1" /\ mon' = Feed(mon, evs) /\ UNCHANGED closing
 Finish(tk, w, evs) == /\ closing' = FALSE /\ mpc' = "done" /\ task' = tk /\ waiters' = w
                       /\ mon' = Feed(mon, evs \o <<Ev("returned", 0, FALSE, FALSE)>>) /\ UNCHANGED nspawn
@@ -60,16 +60,16 @@ MainStart == /\ mpc = "top"
 \* ---- connect task
 Attempt(k, oc, slow) ==
    /\ natt' = natt + 1
-   /\ IF slow THEN /\ task' = [task EXCEPT ![k] = [st |-> "factory", at |-> now + SlowLat, oc |-> oc]]
-                   /\ mon' = Feed(mon, <<Ev("attempt", k, FALSE, FALSE)>>) /\ UNCHANGED <<conn, tr, delay>>
-      ELSE /\ task' = [task EXCEPT ![k] = [st |-> "fin", at |-> 0, oc |-> oc]]
-           /\ mon' = Feed(mon, <<Ev("attempt", k, FALSE, FALSE), Ev("attempt_end", k, oc = "ok", FALSE)>>)
+   /\ IF slow THEN /\ task' = [task EXCEPT ![k] = [st |-> "factory", at |-> now + SlowLat, oc |-> oc, id |-> natt]]
+                   /\ mon' = Feed(mon, <<Ev("attempt", natt, FALSE, FALSE)>>) /\ UNCHANGED <<conn, tr, delay>>
+      ELSE /\ task' = [task EXCEPT ![k] = [st |-> "fin", at |-> 0, oc |-> oc, id |-> natt]]
+           /\ mon' = Feed(mon, <<Ev("attempt", natt, FALSE, FALSE), Ev("attempt_end", natt, oc = "ok", FALSE)>>)
            /\ IF oc = "ok" THEN conn' = k /\ tr' = [tr EXCEPT ![k] = "open"] /\ delay' = 0
               ELSE conn' = 0 /\ delay' = NextDelay /\ UNCHANGED tr
-GiveUp(k) == task' = [task EXCEPT ![k] = [st |-> "fin", at |-> 0, oc |-> "na"]] /\ UNCHANGED <<natt, conn, tr, delay, mon>>
+GiveUp(k) == task' = [task EXCEPT ![k] = [st |-> "fin", at |-> 0, oc |-> "na", id |-> -1]] /\ UNCHANGED <<natt, conn, tr, delay, mon>>
 TaskStart(k) == /\ task[k].st = "start"
                 /\ IF BackOffTime > 0
-                   THEN task' = [task EXCEPT ![k] = [st |-> "sleep", at |-> now + BackOffTime, oc |-> "na"]] /\ UNCHANGED <<natt, conn, tr, delay, mon>>
+                   THEN task' = [task EXCEPT ![k] = [st |-> "sleep", at |-> now + BackOffTime, oc |-> "na", id |-> -1]] /\ UNCHANGED <<natt, conn, tr, delay, mon>>
                    ELSE IF ~closing /\ natt < MaxAtt THEN \E oc \in {"ok", "fail"}, slow \in BOOLEAN : Attempt(k, oc, slow)
                         ELSE GiveUp(k)
                 /\ UNCHANGED <<now, closing, closeCalled, mpc, pdone, lastLoss, brk, waiters, nspawn>>
@@ -78,7 +78,7 @@ TaskWake(k) == /\ task[k].st = "sleep" /\ now >= task[k].at
                /\ UNCHANGED <<now, closing, closeCalled, mpc, pdone, lastLoss, brk, waiters, nspawn>>
 TaskFactoryDone(k) == /\ task[k].st = "factory" /\ now >= task[k].at
                       /\ task' = [task EXCEPT ![k].st = "fin"]
-                      /\ mon' = Feed(mon, <<Ev("attempt_end", k, task[k].oc = "ok", FALSE)>>)
+                      /\ mon' = Feed(mon, <<Ev("attempt_end", task[k].id, task[k].oc = "ok", FALSE)>>)
                       /\ IF task[k].oc = "ok" THEN conn' = k /\ tr' = [tr EXCEPT ![k] = "open"] /\ delay' = 0
                          ELSE conn' = 0 /\ delay' = NextDelay /\ UNCHANGED tr
                       /\ UNCHANGED <<now, closing, closeCalled, mpc, pdone, lastLoss, brk, waiters, natt, nspawn>>
@@ -89,13 +89,13 @@ MainWake1 ==
   /\ mpc = "wait1" /\ (task[Cur].st = "fin" \/ closing)
   /\ LET inFactory == task[Cur].st = "factory"
          tk == IF Fixed /\ task[Cur].st # "fin" THEN [task EXCEPT ![Cur].st = "fin"] ELSE task      \* connect_task.cancel()
-         cev == IF Fixed /\ inFactory THEN <<Ev("attempt_end", Cur, FALSE, TRUE)>> ELSE <<>>
+         cev == IF Fixed /\ inFactory THEN <<Ev("attempt_end", task[Cur].id, FALSE, TRUE)>> ELSE <<>>
          w1 == IF Fixed THEN waiters - 1 ELSE (IF closing THEN 0 ELSE waiters)    \* pinned: waiters only end when closing is set
      IN IF conn # 0
         THEN IF Fixed /\ closing
              THEN \* transport obtained concurrently with close(): close it, then the while-test ends the loop
                   /\ tr' = [tr EXCEPT ![conn] = "closed"] /\ pdone' = [pdone EXCEPT ![conn] = TRUE] /\ conn' = 0
-                  /\ Finish(tk, w1, cev \o <<Ev("tclose", conn, FALSE, FALSE)>>)
+                  /\ Finish(tk, w1, cev \o <<Ev("tclose", task[conn].id, FALSE, FALSE)>>)
              ELSE /\ mpc' = "wait2" /\ waiters' = w1 + 1 /\ task' = tk /\ mon' = Feed(mon, cev)
                   /\ UNCHANGED <<conn, tr, pdone, closing, nspawn>>
         ELSE /\ UNCHANGED <<conn, tr, pdone>>
@@ -117,11 +117,11 @@ MainWake2b == \* close() already cleared the connection
 \* ---- environment
 EnvClose == /\ ~closeCalled /\ mpc # "done" /\ closeCalled' = TRUE /\ closing' = TRUE
             /\ IF conn # 0 THEN /\ tr' = [tr EXCEPT ![conn] = "closed"] /\ pdone' = [pdone EXCEPT ![conn] = TRUE] /\ conn' = 0
-                                /\ mon' = Feed(mon, <<Ev("close", 0, FALSE, FALSE), Ev("tclose", conn, FALSE, FALSE)>>)
+                                /\ mon' = Feed(mon, <<Ev("close", 0, FALSE, FALSE), Ev("tclose", task[conn].id, FALSE, FALSE)>>)
                ELSE UNCHANGED <<tr, pdone, conn>> /\ mon' = Feed(mon, <<Ev("close", 0, FALSE, FALSE)>>)
             /\ UNCHANGED <<now, mpc, task, delay, lastLoss, brk, waiters, natt, nspawn>>
 EnvLoss(k) == /\ tr[k] = "open" /\ tr' = [tr EXCEPT ![k] = "closed"] /\ pdone' = [pdone EXCEPT ![k] = TRUE]
-              /\ mon' = Feed(mon, <<Ev("lost", k, FALSE, FALSE)>>)
+              /\ mon' = Feed(mon, <<Ev("lost", task[k].id, FALSE, FALSE)>>)
               /\ UNCHANGED <<now, closing, closeCalled, conn, mpc, task, delay, lastLoss, brk, waiters, natt, nspawn>>
 Ready == \/ mpc = "top" \/ \E k \in Tasks : task[k].st = "start" \/ (task[k].st \in {"sleep", "factory"} /\ now >= task[k].at)
          \/ (mpc = "wait1" /\ (task[Cur].st = "fin" \/ closing)) \/ (mpc = "wait2" /\ (closing \/ (conn # 0 /\ pdone[conn])))
